@@ -236,6 +236,9 @@ def adiabatic (tol : α) (pkg : Pkg α) (basis : Basis) (S : Nat) (bs : List (Bl
   | .error e => .error e
   | .ok n' => .ok (n', (hnet pkg S H0 n + Q) - hfStream pkg S n')
 
+/-- `Stream.Hnet = value` (the setter: `self.H = Hnet - self.Hf`): the value handed to the `H` setter -/
+def setHnetTarget (pkg : Pkg α) (S : Nat) (V : α) (n : List α) : α := V - hfStream pkg S n
+
 end Model
 
 end ThermoVerif.ReactionEnergy
